@@ -10,4 +10,21 @@ CHECKS = [
              "compared with an independent strict reader (body bytes, end offset, listed must-reject classes, no request after a "
              "framing error, independence from how much body the app read). Exploration only: absence is not established.",
      "note": "trusts vlib/ref_request.py as the reading of RFC 9112; documented-unsafe parser modes excluded; one-directional (gunicorn may reject more)"},
+    {"id": "C06", "engine": "P",
+     "technique": "property-based metamorphic testing (Hypothesis + exhaustive single-cut enumeration): same stream under different read segmentations",
+     "text": "Generated streams (obfuscated, conforming, limit-sized, long chunk lines) x configs are fed block-wise and under every single cut "
+             "(exhaustive <=400 bytes), byte-wise, line-wise, around every CR/LF, drawn multi-cuts and 2-cuts (thorough: all 2-cuts for short streams); "
+             "every observation field and the terminal outcome class must be identical. Exploration; exhaustive only for the single-cut sub-domain of each stream.",
+     "note": "reads <= 8192 bytes; exception messages not compared, classes are; end offset not compared after a body error"},
+    {"id": "C07", "engine": "P",
+     "technique": "model-based property testing (Hypothesis): call programs over wsgi.input compared call-by-call with io.BytesIO",
+     "text": "Generated bodies x framings x chunk layouts x read/readline/readlines/iteration programs x segmentations x drain-or-not, followed by a "
+             "pipelined request: each call result equals io.BytesIO's, EOF is sticky, and the next request parses with equal fields and body.",
+     "note": "readlines(hint) may ignore the hint; only accepted (conforming) requests are in scope"},
+    {"id": "C12", "engine": "P",
+     "technique": "property-based boundary testing (Hypothesis) + exhaustive enumeration of endless metered sources",
+     "text": "Limit configs x requests placed d in -4..+4 of each limit (incl. underscore-named fields, segmentations): over => never yielded, within => no "
+             "Limit* rejection; and an enumerated family of endless sources (request line, header line/block, chunk-size line, chunk extension, trailer "
+             "line/block, PROXY line) x configs x read sizes must be rejected before B(cfg) bytes are consumed.",
+     "note": "2-byte band at each size boundary (size with or without CRLF); 0=unlimited exempts the item it unlimits; B(cfg)=2*(line+max_buffer_headers)+64KiB"},
 ]
